@@ -146,7 +146,12 @@ def correspondence(ctx, model_ok):
 
 
 def oracle_cases(ctx, corr):
-    return list(getattr(corr, '_cases', []))
+    # wide equality gadgets (17-70 bits), oracle only: the constant itself and all its single-bit neighbours
+    wide = []
+    for w in (17, 24, 31, 33, 70):
+        for num in ((1 << w) - 1, (1 << (w - 1)) + 5, ctx.rng.getrandbits(w)):
+            wide.append(ac.make_call(ctx.rng, 'equal', w, False, 1000, variant=num))
+    return wide + list(getattr(corr, '_cases', []))
 
 
 def oracle(case):
